@@ -93,7 +93,7 @@ TABLE = [
     ("sequence", [0, 2147483647], None, None, "int"),
     ("percent-complete", [100, 0], None, None, "int"),
     ("repeat", [2], None, None, "int"),
-    ("geo", [(37.386013, -122.082932), (0.0, -0.5)], None, None, "geo"),
+    ("geo", [(37.386013, -122.082932), (0.0, -0.5), (1.23456789e-05, -2.5e-09)], None, None, "geo"),   # repr() of the last pair uses exponent notation
     ("dtstart", [date(2020, 2, 29)], "DATE", None, "dt"),
     ("dtstart", [date(966, 10, 14)], "DATE", None, "dt"),
     ("dtend", [datetime(800, 12, 25, 9, 0)], None, None, "dt"),
@@ -205,6 +205,10 @@ def h_build(comp: int, p: int, mult: int, nested: bool, setitem: bool, extra: bo
     name, values, want_value, want_tzid, kind = TABLE[_c(p, 0, len(TABLE) - 1)]
     values = values[:_c(mult, 1, 3)]
     c = KINDS[comp]()
+    if c.name == "VTIMEZONE" and name.upper() == "TZID":
+        # a VTIMEZONE that has a TZID is registered with the provider when it is parsed and must then be a
+        # usable definition (observances ...); without them it is rejected with ValueError (property C04)
+        return True
     c.add("x-before", "b")
     if setitem and len(values) == 1 and kind in ("text", "int"):
         c[name] = types_factory.for_property(name)(values[0])     # item assignment with a typed value
